@@ -801,7 +801,7 @@ Proof.
     + cbn [bcur]. f_equal. f_equal. lia.
     + lia.
     + lia.
-    + exists b'. split; [|exact Hit]. rewrite Hcol. f_equal. f_equal. rewrite <- app_assoc. reflexivity.
+    + exists b'. split; [|exact Hit]. rewrite <- app_assoc in Hcol. exact Hcol.
 Qed.
 
 Lemma remove_keys_spec : forall n j b g,
@@ -833,28 +833,35 @@ Proof.
 Qed.
 
 (* Remove(key) of an existing entry *)
+Lemma sd_remove_current_spec : forall b cs, has_chunks (bitems b) k cs -> cs <> [] -> bcur b = Some (k, 0%Z) ->
+  exists b', sd_remove_current orc b = (StOk, b') /\ has_chunks (bitems b') k [] /\
+             others_same (bitems b) (bitems b') k.
+Proof.
+  intros b cs Hv Hne Hc.
+  pose proof (has_chunks_first _ _ _ Hv Hne) as Hm.
+  pose proof (has_chunks_length _ _ _ Hv) as Hl.
+  assert (Hlen : exists n, 0 + S n = length cs) by (destruct cs; [contradiction|eexists; reflexivity]).
+  destruct Hlen as (n & Hn).
+  destruct (collect_spec cs n (S (length (bitems b))) b 0 [] Hv Hc Hn ltac:(lia)) as (b1 & Hcol & Hit1).
+  destruct (remove_keys_spec (S n) 0 b1 (nthZ cs)) as (b2 & Hr & Hv2 & Ho2).
+  { rewrite Hit1. exact Hv. }
+  { intros t Ht. rewrite nthZ_nat. apply nth_error_Some. lia. }
+  assert (Hck : fst (bt_curkey b) = k) by (unfold bt_curkey; rewrite Hc; reflexivity).
+  unfold sd_remove_current. rewrite Hck, Hcol. cbn [app]. rewrite Hr.
+  destruct (bitems b) as [|e t] eqn:E; [discriminate|].
+  exists b2. split; [reflexivity|]. split.
+  - intros i. rewrite (Hv2 i), nthZ_nil. destruct (inr (Z.of_nat 0) (Z.of_nat (S n)) i) eqn:A; [reflexivity|].
+    apply inr_false in A. destruct (Z_lt_le_dec i 0); [apply nthZ_neg; assumption|apply nthZ_beyond; lia].
+  - rewrite <- Hit1. exact Ho2.
+Qed.
+
 Lemma sd_remove_spec : forall b cs, has_chunks (bitems b) k cs -> cs <> [] ->
   exists b', sd_remove orc b k = (StOk, b') /\ has_chunks (bitems b') k [] /\
              others_same (bitems b) (bitems b') k.
 Proof.
   intros b cs Hv Hne. unfold sd_remove, sd_find_one.
-  pose proof (has_chunks_first _ _ _ Hv Hne) as Hm. rewrite (bt_find_hit orc b _ Hm).
-  set (b0 := mkBt (bitems b) (Some (k, 0%Z)) (btick b)).
-  unfold sd_remove_current. change (bitems b0) with (bitems b).
-  destruct (bitems b) as [|e t] eqn:E; [discriminate|]. rewrite <- E in Hv, Hm |- *.
-  change (fst (bt_curkey b0)) with k.
-  pose proof (has_chunks_length _ _ _ Hv) as Hl.
-  assert (Hlen : exists n, 0 + S n = length cs) by (destruct cs; [contradiction|eexists; reflexivity]).
-  destruct Hlen as (n & Hn).
-  destruct (collect_spec cs n (S (length (bitems b))) b0 0 [] Hv eq_refl Hn ltac:(lia)) as (b1 & Hcol & Hit1).
-  rewrite Hcol. cbn [app].
-  destruct (remove_keys_spec (S n) 0 b1 (nthZ cs)) as (b2 & Hr & Hv2 & Ho2).
-  { rewrite Hit1. exact Hv. }
-  { intros t Ht. rewrite nthZ_nat. apply nth_error_Some. lia. }
-  rewrite Hr. exists b2. split; [reflexivity|]. split.
-  - intros i. rewrite (Hv2 i), nthZ_nil. destruct (inr (Z.of_nat 0) (Z.of_nat (S n)) i) eqn:A; [reflexivity|].
-    apply inr_false in A. destruct (Z_lt_le_dec i 0); [apply nthZ_neg; assumption|apply nthZ_beyond; lia].
-  - change (bitems b0) with (bitems b) in Hit1. rewrite <- Hit1. exact Ho2.
+  rewrite (bt_find_hit orc b _ (has_chunks_first _ _ _ Hv Hne)).
+  apply (sd_remove_current_spec (mkBt (bitems b) (Some (k, 0%Z)) (btick b)) cs Hv Hne eq_refl).
 Qed.
 
 Lemma sd_remove_missing : forall b, has_chunks (bitems b) k [] ->
